@@ -11,8 +11,9 @@ CONSTANTS
   Mode = "hist"
   L = 333
   Sizes = {"L-1", "L", "L+1", "2L", "2L+1", "3L+2"}
-  HistStores <- StoresSmall
-  HistKinds = {"L-1", "L", "L+1", "2L", "2L+1", "3L+2", "Rm", "RmFresh", "Put0", "Put255", "Del0", "Iter", "IterDesc", "IterFrom1", "IterFresh", "BRAll"}
+  HistStores <- HistStoresThorough
+  HistKinds = {"L-1", "L", "L+1", "2L", "2L+1", "3L+2", "Rm", "RmFresh", "Put0", "Put255", "Iter", "IterDesc", "BRAll"}
+  HistFillFirst = TRUE
   MaxSteps = 4
 INVARIANTS TypeOK HistAgrees HistRounds
 CHECK_DEADLOCK FALSE
